@@ -129,26 +129,28 @@ SigInfoOverrun(t) == Node(t, <<Leaf(N(27), 1, B(0)), Bad(Leaf(N(40), 1, B(9)))>>
 SigInfoUnkCrit(t) == Node(t, <<Leaf(N(27), 1, B(0)), UnkCrit>>)
 SigInfoBadWidth(t) == Node(t, <<Leaf(N(27), 3, <<R(0, 3)>>)>>)
 
-\* letters that may stand anywhere / letters only possible as the last element of the level
-\* (an element that overruns the level, or a cut header, has nothing after it)
-InterestAlpha(full) ==
-  <<NameOk, NameEmpty, NameBadComp, Leaf(N(33), 0, <<>>), Leaf(N(18), 0, <<>>),
-    Node(N(30), <<NameOk>>), Leaf(N(10), 4, <<R(1, 4)>>), Leaf(N(10), 3, <<R(1, 3)>>), Leaf(N(12), 2, <<R(15, 1), R(160, 1)>>),
-    Leaf(N(36), 2, <<R(7, 2)>>), SigInfoOk(N(44)), SigInfoOverrun(N(44)), Leaf(N(46), 4, <<R(5, 4)>>), UnkCrit, UnkNonCrit>>
-  \o (IF full THEN <<NameTwo, Node(N(30), <<UnkCrit>>), Node(N(30), <<NameOk, NameBadComp>>), Leaf(N(34), 1, B(64)), Leaf(N(12), 0, <<>>),
-                     SigInfoKl(N(44)), SigInfoUnkCrit(N(44)), Leaf(N(33), 1, B(1))>> ELSE <<>>)
-InterestTail == <<Bad(Leaf(N(36), 2, <<R(7, 2)>>)), Bad(NameOk), Bad(Leaf(N(12), 2, <<R(1, 2)>>)), Trunc, Bad(SigInfoOk(N(44)))>>
+\* Letters that may stand anywhere (body) / letters only possible as the last element of the level
+\* (tail: an element that overruns the level, or a cut header, has nothing after it).
+\* Three nested alphabet levels: 0 = mini (first MiniN letters), 1 = reduced (first RedN), 2 = full.
+InterestBody ==
+  <<NameOk, NameBadComp, Leaf(N(10), 4, <<R(1, 4)>>), Leaf(N(10), 3, <<R(1, 3)>>), SigInfoOk(N(44)), SigInfoOverrun(N(44)),
+    Leaf(N(36), 2, <<R(7, 2)>>), UnkCrit, UnkNonCrit,
+    NameEmpty, Leaf(N(33), 0, <<>>), Leaf(N(18), 0, <<>>), Node(N(30), <<NameOk>>), Leaf(N(12), 2, <<R(15, 1), R(160, 1)>>),
+    Leaf(N(46), 4, <<R(5, 4)>>),
+    NameTwo, Node(N(30), <<UnkCrit>>), Node(N(30), <<NameOk, NameBadComp>>), Leaf(N(34), 1, B(64)), Leaf(N(12), 0, <<>>),
+    SigInfoKl(N(44)), SigInfoUnkCrit(N(44)), Leaf(N(33), 1, B(1))>>
+InterestTail == <<Bad(Leaf(N(36), 2, <<R(7, 2)>>)), Trunc, Bad(NameOk), Bad(Leaf(N(12), 2, <<R(1, 2)>>)), Bad(SigInfoOk(N(44)))>>
 
 MetaOk  == Node(N(20), <<Leaf(N(24), 1, B(0)), Leaf(N(25), 2, <<R(3, 1), R(232, 1)>>)>>)
 MetaFbi == Node(N(20), <<Leaf(N(25), 1, B(10)), Leaf(N(26), 3, <<R(50, 1), R(1, 1), R(9, 1)>>)>>)
 MetaBadWidth == Node(N(20), <<Leaf(N(24), 1, B(0)), Leaf(N(25), 5, <<R(0, 5)>>)>>)
 MetaOverrun == Node(N(20), <<Bad(Leaf(N(24), 1, B(0)))>>)
 MetaOoo == Node(N(20), <<Leaf(N(25), 1, B(1)), Leaf(N(24), 1, B(2))>>)
-DataAlpha(full) ==
-  <<NameOk, NameEmpty, NameBadComp, MetaOk, MetaBadWidth, MetaOverrun, Leaf(N(21), 3, <<R(65, 3)>>), Leaf(N(21), 0, <<>>),
-    SigInfoOk(N(22)), SigInfoUnkCrit(N(22)), SigInfoOverrun(N(22)), Leaf(N(23), 4, <<R(5, 4)>>), UnkCrit, UnkNonCrit>>
-  \o (IF full THEN <<NameTwo, MetaFbi, MetaOoo, Node(N(20), <<>>), SigInfoKl(N(22)), SigInfoBadWidth(N(22)), Leaf(N(23), 0, <<>>)>> ELSE <<>>)
-DataTail == <<Bad(Leaf(N(21), 3, <<R(65, 3)>>)), Bad(NameOk), Bad(MetaOk), Trunc, Bad(Leaf(N(23), 4, <<R(5, 4)>>))>>
+DataBody ==
+  <<NameOk, NameBadComp, MetaOk, MetaBadWidth, MetaOverrun, Leaf(N(21), 3, <<R(65, 3)>>), SigInfoUnkCrit(N(22)), UnkCrit, UnkNonCrit,
+    NameEmpty, Leaf(N(21), 0, <<>>), SigInfoOk(N(22)), SigInfoOverrun(N(22)), Leaf(N(23), 4, <<R(5, 4)>>),
+    NameTwo, MetaFbi, MetaOoo, Node(N(20), <<>>), SigInfoKl(N(22)), SigInfoBadWidth(N(22)), Leaf(N(23), 0, <<>>)>>
+DataTail == <<Bad(Leaf(N(21), 3, <<R(65, 3)>>)), Trunc, Bad(NameOk), Bad(MetaOk), Bad(Leaf(N(23), 4, <<R(5, 4)>>))>>
 
 Validity == Node(N(253), <<Leaf(N(254), 15, <<R(49, 15)>>), Leaf(N(255), 15, <<R(50, 15)>>)>>)
 CertSigOk == Node(N(22), <<Leaf(N(27), 1, B(3)), Node(N(28), <<NameOk>>), Validity>>)
@@ -156,31 +158,36 @@ CertSigDesc == Node(N(22), <<Leaf(N(27), 1, B(3)), Validity,
                              Node(N(258), <<Node(N(512), <<Leaf(N(513), 1, B(107)), Leaf(N(514), 1, B(118))>>)>>)>>)
 CertSigValOverrun == Node(N(22), <<Leaf(N(27), 1, B(3)), Node(N(253), <<Leaf(N(254), 15, <<R(49, 15)>>), Bad(Leaf(N(255), 2, <<R(50, 2)>>))>>)>>)
 CertSigValCrit == Node(N(22), <<Leaf(N(27), 1, B(3)), Node(N(253), <<Leaf(N(254), 15, <<R(49, 15)>>), UnkCrit>>)>>)
-CertAlpha(full) ==
-  <<NameOk, NameBadComp, MetaOk, MetaBadWidth, Leaf(N(21), 3, <<R(48, 3)>>), CertSigOk, CertSigDesc, CertSigValOverrun,
-    CertSigValCrit, Leaf(N(23), 4, <<R(5, 4)>>), UnkCrit, UnkNonCrit>>
-  \o (IF full THEN <<NameEmpty, MetaOverrun, SigInfoOk(N(22)), SigInfoUnkCrit(N(22)), SigInfoBadWidth(N(22))>> ELSE <<>>)
-CertTail == <<Bad(Leaf(N(21), 3, <<R(48, 3)>>)), Bad(CertSigOk), Trunc>>
+CertBody ==
+  <<NameOk, NameBadComp, MetaOk, Leaf(N(21), 3, <<R(48, 3)>>), CertSigOk, CertSigValOverrun, CertSigValCrit, UnkCrit, UnkNonCrit,
+    MetaBadWidth, CertSigDesc, Leaf(N(23), 4, <<R(5, 4)>>),
+    NameEmpty, MetaOverrun, SigInfoOk(N(22)), SigInfoUnkCrit(N(22)), SigInfoBadWidth(N(22))>>
+CertTail == <<Bad(Leaf(N(21), 3, <<R(48, 3)>>)), Trunc, Bad(CertSigOk)>>
 
 NackOk == Node(N(800), <<Leaf(N(801), 1, B(150))>>)
-LpAlpha(full) ==
-  <<Leaf(N(82), 1, B(0)), Leaf(N(98), 4, <<R(222, 4)>>), NackOk, Node(N(800), <<>>),
-    Node(N(800), <<Leaf(N(801), 3, <<R(1, 3)>>)>>), Node(N(800), <<UnkCrit>>), Leaf(N(812), 2, <<R(1, 1), R(4, 1)>>),
-    Leaf(N(812), 3, <<R(1, 3)>>), Leaf(N(832), 1, B(1)), Leaf(N(840), 8, <<R(0, 7), R(1, 1)>>), Leaf(N(836), 8, <<R(0, 7), R(2, 1)>>),
-    Leaf(N(80), 5, <<R(5, 1), R(3, 1), R(7, 1), R(1, 1), R(0, 1)>>), UnkCrit, UnkNonCrit>>
-  \o (IF full THEN <<Leaf(N(83), 1, B(1)), Node(N(800), <<Bad(Leaf(N(801), 1, B(150)))>>), Node(N(820), <<Leaf(N(821), 1, B(1))>>),
-                     Leaf(N(844), 0, <<>>), Leaf(N(848), 2, <<R(6, 1), R(0, 1)>>), Leaf(N(81), 8, <<R(0, 8)>>), Leaf(N(816), 1, B(9)),
-                     Leaf(N(80), 0, <<>>)>> ELSE <<>>)
-LpTail == <<Bad(Leaf(N(80), 5, <<R(5, 5)>>)), Bad(NackOk), Bad(Leaf(N(812), 2, <<R(1, 2)>>)), Trunc>>
+LpBody ==
+  <<Leaf(N(80), 5, <<R(5, 1), R(3, 1), R(7, 1), R(1, 1), R(0, 1)>>), NackOk, Node(N(800), <<Leaf(N(801), 3, <<R(1, 3)>>)>>),
+    Node(N(800), <<UnkCrit>>), Leaf(N(98), 4, <<R(222, 4)>>), Leaf(N(812), 3, <<R(1, 3)>>), Leaf(N(82), 1, B(0)), UnkCrit, UnkNonCrit,
+    Node(N(800), <<>>), Leaf(N(812), 2, <<R(1, 1), R(4, 1)>>), Leaf(N(832), 1, B(1)), Leaf(N(840), 8, <<R(0, 7), R(1, 1)>>),
+    Leaf(N(836), 8, <<R(0, 7), R(2, 1)>>),
+    Leaf(N(83), 1, B(1)), Node(N(800), <<Bad(Leaf(N(801), 1, B(150)))>>), Node(N(820), <<Leaf(N(821), 1, B(1))>>),
+    Leaf(N(844), 0, <<>>), Leaf(N(848), 2, <<R(6, 1), R(0, 1)>>), Leaf(N(81), 8, <<R(0, 8)>>), Leaf(N(816), 1, B(9)),
+    Leaf(N(80), 0, <<>>)>>
+LpTail == <<Bad(Leaf(N(80), 5, <<R(5, 5)>>)), Trunc, Bad(NackOk), Bad(Leaf(N(812), 2, <<R(1, 2)>>))>>
 
-NameAlpha == <<CompA, Leaf(N(8), 0, <<>>), Leaf(N(54), 2, <<R(1, 1), R(0, 1)>>), Leaf(N(1), 32, <<R(170, 32)>>),
-               Leaf(N(65535), 1, B(1)), Leaf(N(0), 1, B(1)), Leaf(N(8), 253, <<R(120, 253)>>)>>
-NameTail == <<Bad(Leaf(N(8), 1, B(98))), Bad(Leaf(N(8), 0, <<>>)), Trunc>>
+NameBody == <<CompA, Leaf(N(8), 0, <<>>), Leaf(N(54), 2, <<R(1, 1), R(0, 1)>>), Leaf(N(1), 32, <<R(170, 32)>>),
+              Leaf(N(65535), 1, B(1)), Leaf(N(0), 1, B(1)), Leaf(N(8), 253, <<R(120, 253)>>)>>
+NameTail == <<Bad(Leaf(N(8), 1, B(98))), Trunc, Bad(Leaf(N(8), 0, <<>>))>>
 
-AlphaOf(pk, full) == CASE pk = "interest" -> InterestAlpha(full) [] pk = "data" -> DataAlpha(full)
-                       [] pk = "cert" -> CertAlpha(full) [] pk = "lp" -> LpAlpha(full) [] pk = "name" -> NameAlpha
-TailOf(pk) == CASE pk = "interest" -> InterestTail [] pk = "data" -> DataTail [] pk = "cert" -> CertTail
-                [] pk = "lp" -> LpTail [] pk = "name" -> NameTail
+BodyOf(pk) == CASE pk = "interest" -> InterestBody [] pk = "data" -> DataBody [] pk = "cert" -> CertBody
+                [] pk = "lp" -> LpBody [] pk = "name" -> NameBody
+TailAll(pk) == CASE pk = "interest" -> InterestTail [] pk = "data" -> DataTail [] pk = "cert" -> CertTail
+                 [] pk = "lp" -> LpTail [] pk = "name" -> NameTail
+MiniN == 9
+RedN(pk) == CASE pk = "interest" -> 15 [] pk = "data" -> 14 [] pk = "cert" -> 12 [] pk = "lp" -> 14 [] pk = "name" -> 7
+AlphaOf(pk, lvl) == LET A == BodyOf(pk) IN
+                    IF lvl >= 2 \/ pk = "name" THEN A ELSE SubSeq(A, 1, IF lvl = 1 THEN RedN(pk) ELSE MiniN)
+TailOf(pk, lvl) == IF lvl = 0 THEN SubSeq(TailAll(pk), 1, 2) ELSE TailAll(pk)
 
 \* all index sequences: body letters 1..na at any position, tail letters na+1..na+nt only last
 RECURSIVE BodySeqs(_, _)
@@ -189,5 +196,5 @@ BodySeqs(na, n) == IF n = 0 THEN {<<>>}
                         S \cup {Append(x, a) : x \in {y \in S : Len(y) = n - 1}, a \in 1 .. na}
 LetterSeqs(na, nt, n) == LET Bd == BodySeqs(na, n) IN
                          Bd \cup {Append(x, na + j) : x \in {y \in Bd : Len(y) < n}, j \in 1 .. nt}
-Letters(pk, full) == AlphaOf(pk, full) \o TailOf(pk)
+Letters(pk, lvl) == AlphaOf(pk, lvl) \o TailOf(pk, lvl)
 =============================================================================
